@@ -2063,13 +2063,21 @@ class TargetRegistry:
             return OrderedDict()
 
     def _get_closest_type(self, obj, type_tree):
-        default = None
+        # every matching branch is followed; a type found in the MRO of
+        # type(obj) (the earlier the better) beats virtual / duck-typed
+        # matches, so the result does not depend on sibling order
+        matches = []
         for cur_type, sub_tree in type_tree.items():
             if isinstance(obj, cur_type):
                 sub_type = self._get_closest_type(obj, type_tree=sub_tree)
-                ret = cur_type if sub_type is None else sub_type
-                return ret
-        return default
+                matches.append(cur_type if sub_type is None else sub_type)
+        if not matches:
+            return None
+        mro = type(obj).__mro__
+        nominal = [m for m in matches if m in mro]
+        if nominal:
+            return min(nominal, key=mro.index)
+        return matches[0]
 
     def _register_default_types(self):
         self.register(object)
